@@ -220,6 +220,11 @@ type Target struct {
 	// enclosing block, up to the end of that block (Rest = falling out of the block; "" when the
 	// block is the function body and must end in a return).
 	After bool
+	// Until (with After): the translated statements stop BEFORE the first following statement
+	// whose source text starts with Until (it must exist); falling out there = Rest.
+	Until string
+	// NakedRet: the Gallina term of a `return` without results (functions without result values).
+	NakedRet string
 	// Extensions of records.go: declared non-local lvalues (Go source text -> Gallina variable),
 	// type assertions (asserted type -> {is-function, value-function}), the nil test of
 	// interface values, and "only the value of this composite-literal key".
@@ -520,6 +525,9 @@ func (c *fnctx) stmts(list []ast.Stmt, rest string) string {
 		if len(x.Results) == 0 {
 			if c.tg.VoidRet != "" {
 				return c.tg.VoidRet
+			}
+			if c.tg.NakedRet != "" {
+				return c.tg.NakedRet
 			}
 			failf("%s: naked return", c.t.pos(s))
 		}
@@ -861,6 +869,19 @@ func (t *translator) emitFunc(tg *Target, w *bytes.Buffer) {
 		selList = []ast.Stmt{sel}
 		if tg.After {
 			selList = t.stmtsAfter(fd, sel, tg.Func)
+			if tg.Until != "" {
+				cut := -1
+				for i, st := range selList {
+					if strings.HasPrefix(t.src(st), tg.Until) {
+						cut = i
+						break
+					}
+				}
+				if cut < 0 {
+					failf("%s: no statement of %s after the selected one starts with %q", t.pos(fd), tg.Func, tg.Until)
+				}
+				selList = selList[:cut]
+			}
 			scope = &ast.BlockStmt{List: selList}
 		}
 	}
@@ -893,11 +914,17 @@ func (t *translator) emitFunc(tg *Target, w *bytes.Buffer) {
 		se := t.fset.Position(sel.End())
 		if tg.After {
 			fmt.Fprintf(w, "   the statements AFTER the statement at lines %d-%d (to the end of its block), which starts with: %s\n   falling out of the block  =>  %s\n", sp.Line, se.Line, tg.Stmt, tg.Rest)
+			if tg.Until != "" {
+				fmt.Fprintf(w, "   up to (not including) the statement that starts with: %s\n", tg.Until)
+			}
 		} else {
 			fmt.Fprintf(w, "   statement at lines %d-%d starting with: %s\n   falling out of it  =>  %s\n", sp.Line, se.Line, tg.Stmt, tg.Rest)
 		}
 		if tg.Pre != "" {
 			fmt.Fprintf(w, "   prefix: %s\n", tg.Pre)
+		}
+		if tg.NakedRet != "" {
+			fmt.Fprintf(w, "   return without results  =>  %s\n", tg.NakedRet)
 		}
 	}
 	if kv != nil {
